@@ -131,6 +131,9 @@ def declare(reg):
                               'fields': {'linecache': 'arrlist[PosLine]', 'lineindex': 'arrlist[LineIndexInfo]',
                                          'text': 'str', 'len': 'int', 'source': 'Val', 'pos': 'int'},
                               'wf': ['0 <= self.pos', 'self.pos <= self.len']}
+    # the object generated code collects the options of a choice in (`with ctx.choice() as ch: @ch.option ...`)
+    reg.classes['ChoiceCtx'] = {'mro': ['tatsu/contexts/ctxlib/choice.py:ChoiceContext', 'tatsu/contexts/ctxlib/_base.py:ContextBase'],
+                                'fields': {'options': 'seq[func:PARSE]', 'expected': 'seq[str]'}}
     reg.classes['LineInfo'] = {'mro': ['tatsu/input/infos.py:LineInfo'], 'isa': ['LineInfo']}
     reg.classes['LineIndexInfo'] = {'mro': ['tatsu/input/infos.py:LineIndexInfo'], 'isa': ['LineIndexInfo']}
     reg.classes['Cursor'] = {
